@@ -63,6 +63,14 @@ claimed = {
          "Seeded histories over 2-4 TCP subscriber connections, 1-3 publishers (TCP and embedded), 4 channels and the patterns a*, ?b, *: SUBSCRIBE/PSUBSCRIBE with running-count confirmations, UNSUBSCRIBE/PUNSUBSCRIBE by name and all, single publishes and parallel bursts of 50-500 publishes, PUBSUB CHANNELS/NUMSUB/NUMPAT at quiescent points; every frame a subscriber connection receives is strict-parsed and timestamped; the checker requires: no message without a matching subscription alive during its publish, at most once per (message, connection, subscription), every message published after a confirmed and never withdrawn subscription is received (decided after the drain marker of the same channel has arrived), publish order per (publisher, channel, subscription), exact confirmation sets and counts, introspection equal to the reference table.",
          "Subscriptions overlapping a publish in time may or may not receive it; PUNSUBSCRIBE is allowed to withdraw subscriptions whose name matches the given glob (SugarDB documents 'unsubscribe using patterns'); the UNSUBSCRIBE reply is accepted in SugarDB's nested-array form pinned by the unit tests; a drain watchdog firing is inconclusive. Embedded subscribers (net.Pipe based API) are not exercised.",
          "DESIGN.md §3 C18"),
+ "C06": ("exploration", "differential monitoring of the real authorization gate (over TCP) against a declarative evaluator written from the documentation, with an independent key/channel table; dataset, ACL listing and pub/sub state observed around every denied command",
+         "Every registered command and subcommand, instantiated from the harness's own key table with every assignment of permitted / forbidden keys and channels to its key positions (about 1100 instances), is sent by a connection as a user with each rule set of a small universe (on/off x 5 key-rule sets x 4 category-rule sets x 3 channel-rule sets, plus per command: only this command, everything but this command, everything but its parent, own categories minus one) and in each authentication state (fresh, failed AUTH, authenticated, authenticated then disabled / restricted / deleted). Whenever the evaluator says the documented rules certainly deny the command, the reply must be an error and the whole-store dump and ACL LIST must be unchanged.",
+         "The server runs with RequirePass. Only the 'gate allows what the policy denies' direction is a violation; over-restriction is counted. Rule sets are written in documented, unambiguous spellings. A denied command that the gate wrongly lets through but that then fails for another reason with no effect is not observable.",
+         "DESIGN.md §3 C06, Appendix C"),
+ "C11": ("exploration", "lock-step monitoring of AUTH/HELLO outcomes and per-connection identity probes against a reference user table over histories of rule edits, saves, loads and restarts",
+         "Seeded histories over three connections and the users default/u1/u2: ACL SETUSER with on/off, >p <p #h !h nopass resetpass, ACL DELUSER (including default and absent users), AUTH with one and two arguments and HELLO ... AUTH with right, wrong, hash-form and other users' passwords, reconnects, ACL SAVE, ACL LOAD MERGE|REPLACE, restart on the saved .json/.yaml/.yml file, with and without RequirePass; after every step every connection is probed (ACL WHOAMI and a GET): it must act as exactly the user the reference says, or be refused.",
+         "Probe users have maximally permissive rules so that a probe fails exactly when the connection is unauthenticated or its user is disabled or deleted. Rule equality after SAVE/LOAD/restart is behavioural (same AUTH and probe outcomes).",
+         "DESIGN.md §3 C11"),
  "C01": ("exploration", "lock-step differential monitoring of the real handlers against an executable reference typed map (replies + whole-store dump after every step)",
          "Every sequence of depth <=2 (thorough: <=3) over an 80-command alphabet from 8 initial states, plus seeded random programs of 40-80 steps over binary/numeric/huge values, run on fresh instances; each step's strict-parsed reply must be allowed by the reference model and the side-effect-free dump of the store must equal the model state. Held on what was explored, not a proof.",
          "Trusts the verif-tagged dump (reads the store under its own lock), the injected virtual clock, and the reference model in harness/model (set-valued where statement and docs are silent). Inputs matching a listed known finding are filtered out of exploration and replayed by a witness lane.",
